@@ -1,6 +1,7 @@
 import Fabio.Model.C04F64
 import Fabio.Props.C04
 import Fabio.Lemmas.C04TableG
+import Fabio.Lemmas.C04Round
 /-!
 C04, round 4 — theorems about the arithmetic-parametrised model (`Model/C04F64.lean`), the random picker
 under a uniform source, and the forced hypothesis of `rr_cycle_exact` (the uint64 wrap of the cursor).
@@ -331,6 +332,21 @@ theorem slotCountA_zero (A : Arith) (h0 : A.rnd 0 = 0) : slotCountA A 0 = 0 := b
   rw [this]
   simp
 
+/-! ### rounding error of float64 and the slot resolution -/
+
+/-- `roundF64` (the rounding of `Arith.f64`) is within half a unit in the last place: the error is at most
+`2⁻¹⁰⁷⁵` (denormal results) or `2⁻⁵³` times the argument. -/
+theorem roundF64_error (q : Rat) (hq : 0 < q) :
+    |roundF64 q - q| ≤ pow2 (-1075) ∨ |roundF64 q - q| ≤ q * pow2 (-53) :=
+  roundF64_err q hq
+
+/-- **"To within the resolution of 10,000 slots" for the float64 code:** the slot count computed with the
+float64 product differs from `10⁴·w` by less than `1 + 10⁻⁶` for every weight `0 ≤ w ≤ 2` — the tolerance of
+the specification clause `count-off` evaluated on the implementation (over ℚ: `< 1`, `slot_error_lt_one`). -/
+theorem slot_error_f64 (w : Rat) (h0 : 0 ≤ w) (h1 : w ≤ 2) :
+    |(slotCountA Arith.f64 w : Rat) - 10000 * w| < 1 + 1 / 1000000 :=
+  Fabio.Lemmas.C04.slot_error_f64 w h0 h1
+
 /-- **The ring of the code as coded, in every arithmetic with `rnd 0 = 0` that rounds non-negative numbers to
 non-negative numbers — float64 in particular — and for every tie order of the sort:** the fill neither panics
 nor loops, no slot is nil, target `i` occupies exactly `slotCountA A wᵢ` slots (`wᵢ` the weight computed in
@@ -603,6 +619,8 @@ example : (match sumLoop Arith.f64 [roundF64 (1/10), roundF64 (3/10)] with
     | some s => decide (¬ (1 < s ∨ ((2 : Nat) = 4 ∧ s < 1)))
     | none => false) = true ∧
     Arith.f64.rnd (roundF64 (1/10)) = roundF64 (1/10) := by decide +kernel
+/-- 1/3 in float64: 3333 slots, within 1 + 10⁻⁶ of 3333.33… -/
+example : slotCountA Arith.f64 (roundF64 (1/3)) = 3333 ∧ (0 : Rat) ≤ roundF64 (1/3) ∧ roundF64 (1/3) ≤ 2 := by decide +kernel
 example : f64_rounds_nonneg (1/3) (by decide +kernel) = f64_rounds_nonneg (1/3) (by decide +kernel) := rfl
 /-- ring 0 1 0 (two slots for target 0): two of the three RNG values select target 0 -/
 example : (List.range 3).countP (fun (k : Nat) => decide (rndPick [some 0, some 1, some 0] (fun _ => (k : Int)) = .ok (some 0))) = 2 := by
